@@ -30,6 +30,7 @@ From Coq Require Import String Ascii.
 From Coq Require Import List NArith ZArith Arith Lia.
 From Iodine Require Import Base Generated.SrcConsts Md5 Login LoginProofs LoginGlue LoginGlueProofs.
 From Iodine Require Server ServerFrame ServerAuthFinal.
+From Iodine Require Import Startup StartupProofs.
 Import ListNotations.
 Local Open Scope N_scope.
 
@@ -144,6 +145,33 @@ Proof.
   rewrite (Hnv now rnd q He) in Hv. discriminate Hv.
 Qed.
 Print Assumptions C19_challenge_survives_until_next_version.
+
+(* what main() of either program prepares for login_calculate (Startup.v; the startup stage of checks/mainlib.py runs the
+   real main() functions against it): a 33-byte buffer holding the first 32 bytes of the password, zero-filled and
+   NUL-terminated -- whichever way the password was given -- so that the response computed over it is the response of the
+   password: it depends on the password bytes and on nothing else (no residue of an earlier, longer -P; no lost last
+   character at the prompt). *)
+Theorem C19_startup_buffer : forall (pw : list N) (s : N),
+  length (pw_buffer pw) = 33%nat /\ nth 32 (pw_buffer pw) 1 = 0 /\
+  pw_buffer (firstn 32 pw) = pw_buffer pw /\
+  login_calculate (pw_buffer pw) s = login_calculate pw s.
+Proof.
+  intros pw s. exact (conj (pw_buffer_length pw) (conj (pw_buffer_terminated pw) (conj (pw_buffer_first32 pw) (login_over_buffer pw s)))).
+Qed.
+Print Assumptions C19_startup_buffer.
+
+Theorem C19_startup_sources :
+  (forall ps p env inp, p <> [] -> startup_password (ps ++ [p]) env inp = pw_buffer p) /\
+  (forall env inp, startup_password [] (Some env) inp = pw_buffer env) /\
+  (forall line rest, ~ In 10 line -> (length line <= 79)%nat ->
+     startup_password [] None (line ++ 10 :: rest) = pw_buffer line /\ startup_password [] None line = pw_buffer line).
+Proof.
+  split; [exact startup_password_P|]. split; [reflexivity|].
+  intros line rest Hn Hl. unfold startup_password, last_opt, prompt_line. cbn [map last].
+  rewrite until_nl_app by exact Hn. rewrite until_nl_nonl by exact Hn.
+  rewrite firstn_all2 by exact Hl. split; reflexivity.
+Qed.
+Print Assumptions C19_startup_sources.
 
 (* --- the glue between the server's version reply and the client's login ---------------------- *)
 (* for every C int the server may hold as challenge (all 2^32) and every userid the server can
